@@ -82,6 +82,7 @@ def build_tonl(sc, sid):
                 "callPM": "_ = s%d.PM(%d)" % (n, n),
                 "shadow": "_ = TF(%d)" % n,
                 "litTT": "_ = %s{X: %d}" % (TT, n),
+                "elidedTT": "_ = []%s{{X: %d}}" % (TT, n),
                 "varTT": "var v%d %s" % (n, TT),
                 "varPtrTT": "var v%d %s" % (n, PTT),
                 "litTT2": "_ = %sTT2{X: %d}" % (q, n),
